@@ -2,6 +2,9 @@ module verifharness
 
 go 1.22
 
-require github.com/bolkedebruin/rdpgw v0.0.0
+require (
+	github.com/bolkedebruin/rdpgw v0.0.0
+	github.com/m7913d/go-ntlm v0.0.1
+)
 
 replace github.com/bolkedebruin/rdpgw => /repo
